@@ -376,12 +376,21 @@ def _draw_household(draw, b: _Builder, arch: str, max_children: int):
         b.tags.add("pensioner_parent")
 
     elif arch == "spouse_apart":
-        a = b.add(hh, _adult_age(draw), weiblich=True)
+        # spouses in two households (year of separation, second home); the children, if any, live with one
+        # of them, who then raises them alone
+        with_kids = draw(st.booleans())
+        a = b.add(hh, _adult_age(draw, 32, 64) if with_kids else _adult_age(draw), weiblich=True, alleinerz=with_kids)
         hh2 = b.new_hh()
         b.arch.append("spouse_apart_2")
-        c = b.add(hh2, _adult_age(draw), weiblich=False)
+        c = b.add(hh2, _adult_age(draw, 32, 64) if with_kids else _adult_age(draw), weiblich=False)
         b.couple(a, c, True, joint=draw(st.booleans()), same_hh=False)
         b.tags.add("spouse_apart")
+        if with_kids:
+            youngest = min(b.rows[a]["alter"], b.rows[c]["alter"])
+            for _ in range(draw(st.integers(1, 3))):
+                k = b.add(hh, _child_age(draw, youngest, 0, 17), weiblich=draw(st.booleans()))
+                b.child_of(k, a, c, kg=draw(st.sampled_from([a, a, c])))
+            b.tags.add("spouse_apart_with_children")
     else:  # pragma: no cover
         raise ValueError(arch)
 
